@@ -1192,8 +1192,36 @@ def check_generated(ctx):
                      dict(site='model', what='classify-table'))
 
 
+def process_prologue(ctx):
+    """the process's FIRST catalogue writes are in galactic coordinates (sources flagged `galactic`, as the finder
+    flags them for a GLON/GLAT image): anything the writer remembers per class / per process from its first call
+    then differs from what the ordinary catalogues judged afterwards need (round 9: column names cached per class).
+    The galactic files themselves are not judged here."""
+    from AegeanTools import catalogs as C
+    if ctx.extra.get('prologue_done'):
+        return
+    ctx.extra['prologue_done'] = True
+    d = os.path.join(ctx.tmpdir(), 'prologue')
+    os.makedirs(d, exist_ok=True)
+    spec = [S('C', island=1), S('I', island=2, uuid='gi'), S('S', uuid='gs')]
+    for ext in ('csv', 'vot', 'fits', 'db'):
+        for prefix in (None, 'g'):
+            try:
+                cat = build(spec)
+                for src in cat:
+                    src.galactic = True
+                with warnings.catch_warnings():
+                    warnings.simplefilter('ignore')
+                    with np.errstate(all='ignore'):
+                        C.save_catalog(os.path.join(d, 'gal.' + ext), cat, meta=None, prefix=prefix)
+            except Exception:
+                pass
+    ctx.count('process-prologue:galactic-write-first')
+
+
 def run(ctx):
     common.use_repo()
+    process_prologue(ctx)
     check_hypotheses(ctx)
     check_generated(ctx)
     run_cases(ctx, corpus_cases())
@@ -1229,6 +1257,7 @@ def run(ctx):
 def search(ctx):
     """proof or correspondence broke and no Spec failure yet: wider sweep, implementation vs Spec only"""
     common.use_repo()
+    process_prologue(ctx)
     if any(f['kind'] == 'spec' for f in ctx.failures):
         return
     saved = ctx.driver_ok
@@ -1245,6 +1274,7 @@ def search(ctx):
 
 def replay(ctx, rec):
     common.use_repo()
+    process_prologue(ctx)
     case = dict(rec['case'])
     if 'catalog' not in case:
         ctx.note("replay record holds only a summary (large correspondence case); nothing to re-run")
